@@ -167,8 +167,10 @@ def run(ctx: Ctx) -> Result:
     _redis.run_seq(ctx, res, "c03r", {"C01"}, "death", 120, 2500, ctx.rng("death"))
     _redis.finish_cuts(ctx, res)
     _redis.consume_cuts(ctx, res)
+    _redis.consume_expired_run(ctx, res)
     from . import _rabbit
     _rabbit.consume_cuts(ctx, res)
+    _rabbit.consume_waiting_cuts(ctx, res)
     from . import _wstop
     _wstop.worker_stop_cuts(ctx, res)
     seen, uniq = set(), []
